@@ -191,6 +191,143 @@ impl MetadataUpdate {
     }
 }
 
+/// Direct-driving wrapper over [`MetadataUpdate`]'s merge constructors for a
+/// simulation harness: every operation delegates to the real code; fetched values are
+/// tagged with numeric ids so that the harness can tell which of them a taken update
+/// carries.
+#[cfg(scylla_verif)]
+#[allow(unreachable_pub, missing_docs)]
+pub(crate) mod verif_api {
+    use super::{MetadataChanges, MetadataUpdate, PartialMetadataChanges, StatusHint};
+    use crate::cluster::metadata::{Metadata, Peer};
+    use crate::cluster::node::NodeAddr;
+    use crate::errors::MetadataError;
+    use std::collections::HashMap;
+    use std::net::SocketAddr;
+    use tokio::sync::oneshot;
+    use uuid::Uuid;
+
+    pub type VerifRefreshSender = oneshot::Sender<Result<(), MetadataError>>;
+    pub type VerifRefreshReceiver = oneshot::Receiver<Result<(), MetadataError>>;
+
+    pub enum VerifChanges {
+        None,
+        Full {
+            metadata_id: u64,
+            peers_id: u64,
+            responders: Vec<VerifRefreshSender>,
+        },
+        Partial {
+            peers_id: Option<u64>,
+        },
+    }
+
+    pub struct VerifTaken {
+        pub changes: VerifChanges,
+        /// (address, is UP hint), sorted by address.
+        pub hints: Vec<(SocketAddr, bool)>,
+    }
+
+    #[derive(Default)]
+    pub struct VerifUpdateSlot {
+        slot: Option<MetadataUpdate>,
+    }
+
+    fn tagged_peers(peers_id: u64) -> Vec<Peer> {
+        vec![Peer {
+            host_id: Uuid::from_u128(peers_id as u128),
+            address: NodeAddr::Untranslatable("127.0.0.1:9042".parse().unwrap()),
+            tokens: Vec::new(),
+            datacenter: None,
+            rack: None,
+        }]
+    }
+
+    fn peers_tag(peers: &[Peer]) -> u64 {
+        peers.first().map(|p| p.host_id.as_u128() as u64).unwrap_or(u64::MAX)
+    }
+
+    impl VerifUpdateSlot {
+        pub fn new() -> Self {
+            Self::default()
+        }
+
+        pub fn is_empty(&self) -> bool {
+            self.slot.is_none()
+        }
+
+        /// A full fetch result (`metadata_id`, whose peer list is `peers_id`), with or
+        /// without the response channel of an explicit refresh request.
+        pub fn merge_full(
+            &mut self,
+            metadata_id: u64,
+            peers_id: u64,
+            with_responder: bool,
+        ) -> Option<VerifRefreshReceiver> {
+            let metadata = Metadata {
+                peers: tagged_peers(peers_id),
+                keyspaces: HashMap::new(),
+                cluster_name: Some(metadata_id.to_string()),
+                client_routes: None,
+            };
+            let (tx, rx) = if with_responder {
+                let (tx, rx) = oneshot::channel();
+                (Some(tx), Some(rx))
+            } else {
+                (None, None)
+            };
+            MetadataUpdate::merge_metadata(&mut self.slot, metadata, tx);
+            rx
+        }
+
+        /// A partial topology fetch result.
+        pub fn merge_topology(&mut self, peers_id: u64) {
+            MetadataUpdate::merge_topology_update(&mut self.slot, tagged_peers(peers_id));
+        }
+
+        pub fn hint(&mut self, addr: SocketAddr, up: bool) {
+            if up {
+                MetadataUpdate::merge_up_hint(&mut self.slot, addr);
+            } else {
+                MetadataUpdate::merge_down_hint(&mut self.slot, addr);
+            }
+        }
+
+        /// What the consumer takes out of the channel slot.
+        pub fn take(&mut self) -> Option<VerifTaken> {
+            let update = self.slot.take()?;
+            let mut hints: Vec<(SocketAddr, bool)> = update
+                .status_hints
+                .iter()
+                .map(|(a, h)| (*a, *h == StatusHint::Up))
+                .collect();
+            hints.sort();
+            let changes = match update.metadata_changes {
+                None => VerifChanges::None,
+                Some(MetadataChanges::Full {
+                    metadata,
+                    refresh_responses,
+                }) => VerifChanges::Full {
+                    metadata_id: metadata
+                        .cluster_name
+                        .as_deref()
+                        .and_then(|s| s.parse().ok())
+                        .unwrap_or(u64::MAX),
+                    peers_id: peers_tag(&metadata.peers),
+                    responders: refresh_responses,
+                },
+                Some(MetadataChanges::Partial(PartialMetadataChanges {
+                    peers,
+                    client_routes_updates: _,
+                })) => VerifChanges::Partial {
+                    peers_id: peers.as_deref().map(peers_tag),
+                },
+            };
+            Some(VerifTaken { changes, hints })
+        }
+    }
+}
+
 /// A partial, mergeable update of client routes, derived from the
 /// (connection id, host id) pairs listed by CLIENT_ROUTES_CHANGE:UPDATE_NODES
 /// events and from the partial snapshot of `system.client_routes` fetched in
